@@ -183,27 +183,49 @@ Definition store (s : st) (a : acct) : st :=
 
 Definition chan_key (ch : str) : str := C03.Model.fold (C03.Model.lower ch).
 
+(* users.setUser(user) raised before storing: only nextId moved *)
+Definition touch (s : st) (a : acct) : st :=
+  St (s_users s) (Z.max (s_next s) (aid a)) (s_creator s) (s_chans s) (s_ignores s).
+
+(* the commands that put the live account back when setUser refuses (DuplicateHostmask): changename restores the
+   name, identify / unidentify the logins, hostmask remove the hostmask set; hostmask add removes the mask it added.
+   set password, set secure and the capability commands do not (the mutated object stays). *)
+Definition rolls_back (m : mut) : bool :=
+  match m with
+  | MName _ | MHostAdd _ | MHostDel _ | MHostClear | MAuthAdd _ | MAuthClear => true
+  | MPass _ | MSecure _ | MCaps _ => false
+  end.
+
 Definition apply_effect (s : st) (E : env) (e : effect) : st :=
   match e with
   | ENone => s
   | ESet a m =>
       let a' := mutate a m in
       let s' := store s a' in
-      match m with
-      | MHostAdd h =>          (* except DuplicateHostmask: user.removeHostmask(hostmask) *)
-          if set_user_dup s' E a' then with_users s' (put (mutate a' (MHostDel h)) (s_users s')) else s'
-      | _ => s'
-      end
+      if rolls_back m && set_user_dup s' E a' then
+        match m with
+        | MHostAdd h =>          (* alreadyThere = hostmask in user.hostmasks; if not alreadyThere: user.removeHostmask(hostmask) *)
+            if C16.Model.iset_mem h (C16.Model.u_hosts (a_u a)) then s'
+            else with_users s' (put (mutate a' (MHostDel h)) (s_users s'))
+        | _ => touch s a
+        end
+      else s'
   | EDel z => with_users s (del z (s_users s))
   | ERegister name pw addmask =>
+      (* user = newUser(); try: name; setPassword; addHostmask(msg.prefix); setUser(user)
+         except ValueError: delUser(user.id); raise      (DuplicateHostmask is a ValueError) *)
       let id := (s_next s + 1)%Z in
       let u0 := C16.Model.User (Some id) [] false false true [] [] [] [] [] in
       let u1 := set_pw (C16.Model.set_name name u0) pw in
-      (* user.addHostmask(msg.prefix): assert isUserHostmask; ValueError under 3 non-wildcard characters.
-         Either exception leaves the account that newUser() stored, named and with its password, without hostmask *)
-      let mask_ok := C16.Model.is_user_hostmask (e_prefix E) && negb (Nat.ltb (List.length (unwild (e_prefix E))) 3) in
-      let u2 := if addmask && mask_ok then C16.Model.set_hosts (C16.Model.iset_add [] (e_prefix E)) u1 else u1 in
-      St (put (Acct u2 []) (s_users s)) id (s_creator s) (s_chans s) (s_ignores s)
+      let deleted := St (del id (s_users s)) id (s_creator s) (s_chans s) (s_ignores s) in
+      if addmask && negb (C16.Model.is_user_hostmask (e_prefix E)) then
+        (* assert in addHostmask: AssertionError is not caught, the account newUser() stored stays, without hostmask *)
+        St (put (Acct u1 []) (s_users s)) id (s_creator s) (s_chans s) (s_ignores s)
+      else if addmask && Nat.ltb (List.length (unwild (e_prefix E))) 3 then deleted     (* ValueError in addHostmask *)
+      else
+        let u2 := if addmask then C16.Model.set_hosts (C16.Model.iset_add [] (e_prefix E)) u1 else u1 in
+        let s2 := St (put (Acct u2 []) (s_users s)) id (s_creator s) (s_chans s) (s_ignores s) in
+        if set_user_dup s2 E (Acct u2 []) then deleted else s2
   | EChan ch c => St (s_users s) (s_next s) (s_creator s) (dict_set (chan_key ch) c (s_chans s)) (s_ignores s)
   | EIgnAdd h =>
       St (s_users s) (s_next s) (s_creator s) (s_chans s)
